@@ -678,6 +678,14 @@ func dispatchedCalls(w *core.World, fn *ssa.Function, targets []*ssa.Function) [
 			args := c.Common().Args
 			if f.Signature.Recv() != nil && len(args) == len(f.Params) && len(args) > 0 {
 				args = args[1:]
+			} else if f.Signature.Recv() == nil && len(f.Params) > 0 && len(args) == len(f.Params) {
+				// a plain function / closure filed in the table that takes the receiver of the targets as its first parameter
+				for _, t := range targets {
+					if t.Signature.Recv() != nil && types.Identical(f.Params[0].Type(), t.Signature.Recv().Type()) {
+						args = args[1:]
+						break
+					}
+				}
 			}
 			if isTarget(f) {
 				out = append(out, dispatchedCall{Call: c, Target: f, Args: args, KeyV: keyV, Key: k})
@@ -961,4 +969,90 @@ func rulePatternAnchored(w *core.World, r *core.Report, rule string) {
 	if n == 0 {
 		r.Undecided(rule, "regexp calls on schema patterns", "", "no regexp call takes its expression from sdcpb.SchemaPattern")
 	}
+}
+
+// structTable recognises a package-level slice literal of structs (var t = []row{{...}, {...}}): it returns, per
+// element, the values stored into each field by the package initialiser (nil when g is not such a table or anything
+// else in the repository assigns it).
+func structTable(w *core.World, g *ssa.Global) []map[int]ssa.Value {
+	if g == nil || g.Pkg == nil {
+		return nil
+	}
+	if ok, _ := immutableGlobal(w, g); !ok {
+		return nil
+	}
+	ini := g.Pkg.Func("init")
+	if ini == nil {
+		return nil
+	}
+	var arr *ssa.Alloc
+	for _, b := range ini.Blocks {
+		for _, in := range b.Instrs {
+			st, ok := in.(*ssa.Store)
+			if !ok || st.Addr != ssa.Value(g) {
+				continue
+			}
+			if sl, ok := st.Val.(*ssa.Slice); ok {
+				arr, _ = sl.X.(*ssa.Alloc)
+			}
+		}
+	}
+	if arr == nil {
+		return nil
+	}
+	rows := map[int64]map[int]ssa.Value{}
+	max := int64(-1)
+	for _, ref := range *arr.Referrers() {
+		ia, ok := ref.(*ssa.IndexAddr)
+		if !ok {
+			continue
+		}
+		idx, isC := core.ConstInt(ia.Index)
+		if !isC {
+			return nil
+		}
+		if idx > max {
+			max = idx
+		}
+		if rows[idx] == nil {
+			rows[idx] = map[int]ssa.Value{}
+		}
+		for _, r2 := range *ia.Referrers() {
+			fa, ok := r2.(*ssa.FieldAddr)
+			if !ok {
+				continue
+			}
+			for _, r3 := range *fa.Referrers() {
+				if st, ok := r3.(*ssa.Store); ok && st.Addr == ssa.Value(fa) {
+					rows[idx][fa.Field] = st.Val
+				}
+			}
+		}
+	}
+	out := make([]map[int]ssa.Value, max+1)
+	for i := range out {
+		out[i] = rows[int64(i)]
+	}
+	return out
+}
+
+// funcOfTableValue: the function a table cell denotes (function, closure, method expression thunk -> the method).
+func funcOfTableValue(v ssa.Value) *ssa.Function {
+	var fn *ssa.Function
+	switch x := v.(type) {
+	case *ssa.Function:
+		fn = x
+	case *ssa.MakeClosure:
+		fn, _ = x.Fn.(*ssa.Function)
+	case *ssa.ChangeType:
+		fn, _ = x.X.(*ssa.Function)
+	}
+	if fn != nil && fn.Synthetic != "" {
+		for _, tc := range core.OwnCalls(fn) {
+			if t := tc.Common().StaticCallee(); t != nil {
+				fn = t
+			}
+		}
+	}
+	return fn
 }
